@@ -56,7 +56,8 @@ ESSENTIAL_LABELS = {'all': ['strided_removed_readded', 'zero_particles',
                             'non_double', 'mixed_tags',
                             'append_differing_props', 'two_arrays',
                             'pickle', 'struct_then_size', 'resize_grow',
-                            'add_property_existing', 'extract_to_dest']}
+                            'add_property_existing', 'extract_to_dest',
+                            'strided_redeclared_plain']}
 
 TYPES = ['double', 'float', 'int', 'long', 'unsigned int']
 FLOATY = ('double', 'float')
@@ -873,7 +874,13 @@ def op_add_property(S, op, a, b):
     kw = {}
     if op.get('kw_type', True) or (not exists and t != 'double'):
         kw['type'] = t
-    if s != 1 or op.get('pass_stride'):
+    declare_only = exists and s != 1 and mode in ('none', 'empty') and \
+        not op.get('pass_stride')
+    if declare_only:
+        # the "make sure it exists" idiom: an existing strided property is
+        # named again without stride and without values; nothing changes
+        S.labels.add('strided_redeclared_plain')
+    elif s != 1 or op.get('pass_stride'):
         kw['stride'] = s
     if dflt is not None:
         kw['default'] = dflt
